@@ -1,6 +1,342 @@
 package alloc
 
-import "verifmc/ev"
+import (
+	"fmt"
+	"math/big"
+	"net"
+	"os"
+	"sort"
+	"strings"
+	"time"
 
-// runSched: E2 scenarios on the allocators (filled in with the scheduler engine).
-var runSched = func(r *ev.Run) {}
+	"github.com/anishathalye/porcupine"
+	"github.com/coredhcp/coredhcp/plugins/allocators"
+	"github.com/coredhcp/coredhcp/plugins/allocators/bitmap"
+
+	"verifmc/ev"
+	"verifmc/sched"
+	"verifmc/verifsched"
+)
+
+// E2 scenarios on the allocators: 2-3 threads, 1-2 operations each, on a 2-block pool so
+// that every pair of operations collides.
+
+type sop struct {
+	kind string // alloc | free
+	blk  int    // hinted / freed block; -1 = no hint
+}
+
+type sres struct {
+	ok  bool
+	blk int64
+}
+
+type scen struct {
+	name    string
+	pool    Pool
+	pre     []int     // blocks allocated (by hint) before the threads start
+	threads [][]sop
+}
+
+func newAlloc(p Pool) allocators.Allocator {
+	if p.V4 {
+		a, err := bitmap.NewIPv4Allocator(net.ParseIP(p.Start), net.ParseIP(p.End))
+		if err != nil {
+			panic(err)
+		}
+		return a
+	}
+	_, ipn, _ := net.ParseCIDR(p.CIDR)
+	a, err := bitmap.NewBitmapAllocator(*ipn, p.Page)
+	if err != nil {
+		panic(err)
+	}
+	return a
+}
+
+func blockNet(g geom, i int) net.IPNet {
+	if i < 0 {
+		return net.IPNet{}
+	}
+	return net.IPNet{IP: g.ipBytes(g.blockBase(int64(i))), Mask: net.CIDRMask(g.page, g.width)}
+}
+
+func doOp(a allocators.Allocator, g geom, o sop) sres {
+	if o.kind == "free" {
+		return sres{ok: a.Free(blockNet(g, o.blk)) == nil, blk: int64(o.blk)}
+	}
+	n, err := a.Allocate(blockNet(g, o.blk))
+	if err != nil {
+		return sres{}
+	}
+	var addr *big.Int
+	if g.width == 32 {
+		addr = new(big.Int).SetBytes(n.IP.To4())
+	} else {
+		addr = new(big.Int).SetBytes(n.IP.To16())
+	}
+	return sres{ok: true, blk: g.blockOf(addr)}
+}
+
+type histOp struct {
+	thread     int
+	op         sop
+	res        sres
+	call, ret  int64
+}
+
+func (sc scen) scenario() sched.Scenario {
+	g := newGeom(sc.pool)
+	outcome := func(a allocators.Allocator, res [][]sres) string {
+		var parts []string
+		for t, rs := range res {
+			for i, r := range rs {
+				parts = append(parts, fmt.Sprintf("t%d.%d:%s(%d)=%v/%d", t, i, sc.threads[t][i].kind, sc.threads[t][i].blk, r.ok, r.blk))
+			}
+		}
+		return strings.Join(parts, " ") + fmt.Sprintf(" bits=%v", a.(vbits).VerifBits())
+	}
+	pre := func(a allocators.Allocator) {
+		for _, b := range sc.pre {
+			if r := doOp(a, g, sop{"alloc", b}); !r.ok || r.blk != int64(b) {
+				panic("scenario precondition failed")
+			}
+		}
+	}
+	return sched.Scenario{
+		Name: sc.name,
+		Setup: func(run *verifsched.Run) func(*verifsched.Run) sched.Exec {
+			a := newAlloc(sc.pool)
+			pre(a)
+			res := make([][]sres, len(sc.threads))
+			var hist []histOp
+			for t := range sc.threads {
+				t := t
+				res[t] = make([]sres, len(sc.threads[t]))
+				run.Spawn(fmt.Sprintf("T%d", t), func() {
+					for i, o := range sc.threads[t] {
+						call := run.Clock()
+						r := doOp(a, g, o)
+						res[t][i] = r
+						hist = append(hist, histOp{t, o, r, call, run.Clock()})
+					}
+				})
+			}
+			return func(run *verifsched.Run) sched.Exec {
+				ex := sched.Exec{Outcome: outcome(a, res)}
+				// direct invariant: blocks outstanding at the end are pairwise distinct and match the bitmap
+				held := map[int64]int{}
+				for _, b := range sc.pre {
+					held[int64(b)]++
+				}
+				for _, h := range hist {
+					if h.op.kind == "alloc" && h.res.ok {
+						held[h.res.blk]++
+					}
+					if h.op.kind == "free" && h.res.ok {
+						held[h.res.blk]--
+					}
+				}
+				for b, n := range held {
+					if n > 1 {
+						ex.Violations = append(ex.Violations, sched.Viol{Sig: "double-allocation", What: fmt.Sprintf("block %d is outstanding %d times at the end of the run (%s)", b, n, ex.Outcome)})
+					}
+				}
+				// second opinion: porcupine on the call/return history
+				if len(hist) == totalOps(sc) && !linearizable(sc, g, hist) {
+					ex.Violations = append(ex.Violations, sched.Viol{Sig: "porcupine-not-linearizable", What: "history rejected by the porcupine linearizability checker: " + ex.Outcome})
+				}
+				return ex
+			}
+		},
+		Serial: func() map[string]string {
+			out := map[string]string{}
+			n := len(sc.threads)
+			idx := make([]int, n)
+			for i := range idx {
+				idx[i] = i
+			}
+			permute(idx, func(order []int) {
+				// thread-granular orders are not enough when threads have 2 ops: enumerate all
+				// interleavings of the per-thread op sequences that respect program order
+				interleavings(sc.threads, func(seq [][2]int) {
+					a := newAlloc(sc.pool)
+					pre(a)
+					res := make([][]sres, n)
+					for t := range res {
+						res[t] = make([]sres, len(sc.threads[t]))
+					}
+					for _, s := range seq {
+						res[s[0]][s[1]] = doOp(a, g, sc.threads[s[0]][s[1]])
+					}
+					out[outcome(a, res)] = fmt.Sprint(seq)
+				})
+			})
+			return out
+		},
+	}
+}
+
+func totalOps(sc scen) int {
+	n := 0
+	for _, t := range sc.threads {
+		n += len(t)
+	}
+	return n
+}
+
+func permute(a []int, f func([]int)) { f(a) } // orders are covered by interleavings()
+
+func interleavings(threads [][]sop, f func([][2]int)) {
+	pos := make([]int, len(threads))
+	var cur [][2]int
+	var rec func()
+	rec = func() {
+		done := true
+		for t := range threads {
+			if pos[t] < len(threads[t]) {
+				done = false
+				cur = append(cur, [2]int{t, pos[t]})
+				pos[t]++
+				rec()
+				pos[t]--
+				cur = cur[:len(cur)-1]
+			}
+		}
+		if done {
+			f(append([][2]int{}, cur...))
+		}
+	}
+	rec()
+}
+
+// linearizable feeds the history to porcupine with a nondeterministic reference model:
+// Allocate returns the hinted block if it is free, else any free block, and fails iff the
+// pool is full; Free succeeds iff the block is outstanding.
+func linearizable(sc scen, g geom, hist []histOp) bool {
+	init := uint64(0)
+	for _, b := range sc.pre {
+		init |= 1 << uint(b)
+	}
+	full := uint64(1)<<uint(g.n) - 1
+	m := porcupine.NondeterministicModel{
+		Init: func() []interface{} { return []interface{}{init} },
+		Step: func(state, input, output interface{}) []interface{} {
+			st, in, out := state.(uint64), input.(sop), output.(sres)
+			if in.kind == "free" {
+				held := st&(1<<uint(in.blk)) != 0
+				if out.ok != held {
+					return nil
+				}
+				if held {
+					return []interface{}{st &^ (1 << uint(in.blk))}
+				}
+				return []interface{}{st}
+			}
+			if !out.ok {
+				if st == full {
+					return []interface{}{st}
+				}
+				return nil
+			}
+			if out.blk < 0 || out.blk >= g.n || st&(1<<uint(out.blk)) != 0 {
+				return nil
+			}
+			if in.blk >= 0 && st&(1<<uint(in.blk)) == 0 && out.blk != int64(in.blk) {
+				return nil // a free hinted block must be honoured
+			}
+			return []interface{}{st | 1<<uint(out.blk)}
+		},
+		Equal: func(a, b interface{}) bool { return a.(uint64) == b.(uint64) },
+	}
+	var ops []porcupine.Operation
+	for _, h := range hist {
+		ops = append(ops, porcupine.Operation{ClientId: h.thread, Input: h.op, Output: h.res, Call: h.call, Return: h.ret})
+	}
+	return porcupine.CheckOperations(m.ToModel(), ops)
+}
+
+func scenarios(thorough bool) []scen {
+	v6 := Pool{CIDR: "2001:db8:0:10::/63", Page: 64}
+	v4 := Pool{V4: true, Start: "10.0.0.1", End: "10.0.0.2"}
+	var out []scen
+	for _, p := range []Pool{v6, v4} {
+		fam := "v6"
+		if p.V4 {
+			fam = "v4"
+		}
+		out = append(out,
+			scen{name: fam + "/2xalloc-same-hint", pool: p, threads: [][]sop{{{"alloc", 0}}, {{"alloc", 0}}}},
+			scen{name: fam + "/free||alloc-hint||alloc", pool: p, pre: []int{0}, threads: [][]sop{{{"free", 0}}, {{"alloc", 0}}, {{"alloc", -1}}}},
+			scen{name: fam + "/alloc;free||alloc;alloc", pool: p, threads: [][]sop{{{"alloc", -1}, {"free", 0}}, {{"alloc", -1}, {"alloc", 1}}}},
+		)
+		if thorough {
+			out = append(out,
+				scen{name: fam + "/3xalloc-on-2-blocks", pool: p, threads: [][]sop{{{"alloc", -1}}, {{"alloc", -1}}, {{"alloc", 1}}}},
+				scen{name: fam + "/3x(alloc;free)", pool: p, threads: [][]sop{{{"alloc", -1}, {"free", 0}}, {{"alloc", 0}, {"free", 1}}, {{"alloc", 1}, {"alloc", -1}}}},
+			)
+		}
+	}
+	return out
+}
+
+// SchedBudget is the wall-clock budget per scenario (truncation clears exhaustive, never a verdict).
+func schedBudget(thorough bool) time.Duration {
+	if thorough {
+		return 10 * time.Minute
+	}
+	return 90 * time.Second
+}
+
+var runSched func(r *ev.Run)
+
+func init() {
+	runSched = func(r *ev.Run) {
+		if os.Getenv("VERIF_SCHED") != "1" {
+			r.Capped("scheduler-based scenarios skipped: binary not built with the instrumentation overlay")
+			return
+		}
+		bound := 2
+		if !r.Quick() {
+			bound = 3
+		}
+		for _, sc := range scenarios(!r.Quick()) {
+			res := sched.Explore(sc.scenario(), bound, schedBudget(!r.Quick()))
+			ReportSched(r, "C04", res, map[string]interface{}{"pool": sc.pool.String(), "threads": fmt.Sprint(sc.threads), "pre": sc.pre})
+		}
+	}
+}
+
+// ReportSched folds one scenario result into the run (shared by the other E2 checks).
+func ReportSched(r *ev.Run, id string, res sched.Result, descr map[string]interface{}) {
+	if res.EngineError != "" {
+		panic("E2 engine error in " + res.Scenario + ": " + res.EngineError)
+	}
+	if res.MaxPoints == 0 {
+		panic("E2 engine error in " + res.Scenario + ": no scheduling points were hit (instrumentation missing?)")
+	}
+	r.EvalN("sched/"+res.Scenario, res.Schedules)
+	r.Add("schedules", res.Schedules)
+	r.Add("schedule_points", res.Points)
+	r.AddGraph(0, res.Points, res.Schedules)
+	var outs []string
+	for o := range res.Outcomes {
+		outs = append(outs, o)
+		r.Eval("outcome/" + res.Scenario + "/" + o)
+	}
+	sort.Strings(outs)
+	d := map[string]interface{}{"scenario": res.Scenario, "schedules": res.Schedules, "max_choice_points": res.MaxPoints, "preemption_bound_completed": res.BoundCompleted, "distinct_outcomes": len(outs), "serial_outcomes": len(res.Serial), "sample_schedule": res.Sample}
+	for k, v := range descr {
+		d[k] = v
+	}
+	r.Sample("sched/"+res.Scenario, d)
+	if res.Truncated || res.BoundCompleted < res.BoundAsked && len(res.Found) == 0 {
+		r.Capped(fmt.Sprintf("%s: time budget hit; preemption bound %d completed (asked %d), %d schedules", res.Scenario, res.BoundCompleted, res.BoundAsked, res.Schedules))
+	}
+	if len(outs) < 2 && len(res.Serial) > 1 {
+		r.Set("vacuity_warning_"+res.Scenario, "only one outcome observed although sequential orders differ")
+	}
+	for _, f := range res.Found {
+		r.Violate(id+"/sched/"+res.Scenario+"/"+f.Sig, fmt.Sprintf("scenario %s, schedule %v: %s", res.Scenario, f.Choices, f.What), map[string]interface{}{"scenario": res.Scenario, "schedule": f.Choices, "outcome": f.Outcome})
+	}
+}
